@@ -555,7 +555,7 @@ def RThreadOk (sh : RShared) (i : Nat) (l : RLocal) : Prop :=
   ((l.pc = RPc.get ∨ l.pc = RPc.upd) →
     l.curS = sh.sent ∧ l.curR = sh.recv ∧ l.dS = sh.sent - sh.lastS ∧ l.dR = sh.recv - sh.lastR) ∧
   (l.pc = RPc.upd → l.mS = sh.statS ∧ l.mR = sh.statR) ∧
-  (l.pc = RPc.done → sh.lastS = sh.sent ∧ sh.lastR = sh.recv)
+  (l.pc = RPc.done → l.failG = false → l.failU = false → sh.lastS = sh.sent ∧ sh.lastR = sh.recv)
 
 /-- What holds of the shared state between rounds and at every step. -/
 structure RGlobal (sh : RShared) : Prop where
@@ -564,32 +564,81 @@ structure RGlobal (sh : RShared) : Prop where
   leS : sh.lastS ≤ sh.sent
   leR : sh.lastR ≤ sh.recv
 
-structure RInv (S R : Nat) (c : Cfg RShared RLocal) : Prop where
+structure RInv (S R : Nat) (fg fu : List Nat) (c : Cfg RShared RLocal) : Prop where
   th : ∀ (i : Nat) (l : RLocal), c.ths[i]? = some l → RThreadOk c.sh i l
+  fl : ∀ (i : Nat) (l : RLocal), c.ths[i]? = some l → l.failG = fg.contains i ∧ l.failU = fu.contains i
   own : ∀ i : Nat, c.sh.lock = some i → ∃ l, c.ths[i]? = some l
   sent : c.sh.sent = S ∧ c.sh.recv = R
   gl : RGlobal c.sh
 
+theorem rStart_getElem? (sh : RShared) (r : Round) (i : Nat) (l : RLocal)
+    (h : (rStart sh r).ths[i]? = some l) : l = rThread r i := by
+  simp only [rStart, List.getElem?_map] at h
+  cases hr : (List.range r.n)[i]? with
+  | none => simp [hr] at h
+  | some k =>
+    simp only [hr, Option.map_some, Option.some.injEq] at h
+    have hk := List.getElem?_eq_some_iff.mp hr
+    obtain ⟨hlt, hk⟩ := hk
+    simp at hk
+    subst hk
+    exact h.symm
+
 theorem rInv_start (sh : RShared) (r : Round) (hg : RGlobal sh) (hl : sh.lock = none) :
-    RInv (sh.sent + r.addS) (sh.recv + r.addR) (rStart sh r) := by
-  refine ⟨?_, ?_, ⟨rfl, rfl⟩, ?_⟩
+    RInv (sh.sent + r.addS) (sh.recv + r.addR) r.failGet r.failUpd (rStart sh r) := by
+  refine ⟨?_, ?_, ?_, ⟨rfl, rfl⟩, ?_⟩
   · intro i l h
-    have := mem_replicate_getElem? _ _ _ _ h
+    have := rStart_getElem? sh r i l h
     subst this
-    simp [RThreadOk, rNew, rStart, hl]
+    simp [RThreadOk, rThread, rNew, rStart, hl]
+  · intro i l h
+    have := rStart_getElem? sh r i l h
+    subst this
+    simp [rThread]
   · intro i h; simp [rStart, hl] at h
   · obtain ⟨a, b, c, d⟩ := hg
     exact ⟨a, b, by simp [rStart]; omega, by simp [rStart]; omega⟩
 
-theorem rInv_step (S R : Nat) (c : Cfg RShared RLocal) (i : Nat) (hc : RInv S R c) :
-    RInv S R (stepAt (rProg .repaired) c i) := by
-  apply inv_stepAt_of_local (rProg .repaired) (RInv S R) c i hc
+theorem rInv_step (S R : Nat) (fg fu : List Nat) (c : Cfg RShared RLocal) (i : Nat) (hc : RInv S R fg fu c) :
+    RInv S R fg fu (stepAt (rProg .repaired) c i) := by
+  apply inv_stepAt_of_local (rProg .repaired) (RInv S R fg fu) c i hc
   intro l hl
-  obtain ⟨hth, hown, hsent, ⟨g1, g2, g3, g4⟩⟩ := hc
+  obtain ⟨hth, hfl, hown, hsent, ⟨g1, g2, g3, g4⟩⟩ := hc
   obtain ⟨t1, t2, t3, t4⟩ := hth i l hl
+  have hflag := hfl i l hl
   have hi : i < c.ths.length := lt_of_getElem? _ _ _ hl
-  obtain ⟨pc, curS, curR, dS, dR, mS, mR⟩ := l
-  simp only at t1 t2 t3 t4
+  obtain ⟨pc, curS, curR, dS, dR, mS, mR, failG, failU⟩ := l
+  simp only at t1 t2 t3 t4 hflag
+  -- flags never change
+  have flags : ∀ (l' : RLocal), l'.failG = failG → l'.failU = failU →
+      ∀ (j : Nat) (x : RLocal), (c.ths.set i l')[j]? = some x → x.failG = fg.contains j ∧ x.failU = fu.contains j := by
+    intro l' e1 e2 j x hj
+    cases getElem?_set_cases _ _ _ _ _ hj with
+    | inl h => obtain ⟨rfl, rfl⟩ := h; rw [e1, e2]; exact hflag
+    | inr h => exact hfl j x h.2
+  -- releasing the lock without touching the counters (a storage call failed)
+  have release : c.sh.lock = some i → (pc = RPc.get ∨ pc = RPc.upd) → (failG = true ∨ failU = true) →
+      RInv S R fg fu ⟨{ c.sh with lock := none }, c.ths.set i ⟨RPc.done, curS, curR, dS, dR, mS, mR, failG, failU⟩⟩ := by
+    intro ho hp hf
+    refine ⟨?_, flags _ rfl rfl, (fun k hk => by cases hk), hsent, ⟨g1, g2, g3, g4⟩⟩
+    intro j x hj
+    cases getElem?_set_cases _ _ _ _ _ hj with
+    | inl h =>
+      obtain ⟨rfl, rfl⟩ := h
+      refine ⟨by simp, by simp, by simp, ?_⟩
+      intro _ e1 e2
+      simp only at e1 e2
+      rcases hf with h | h
+      · rw [h] at e1; cases e1
+      · rw [h] at e2; cases e2
+    | inr h =>
+      obtain ⟨a, b, c', d⟩ := hth j x h.2
+      rw [ho] at a
+      have hfx : ¬ (x.pc = RPc.get ∨ x.pc = RPc.upd) := fun hx => h.1 (Option.some.inj (a.mp hx))
+      refine ⟨?_, fun hx => absurd hx hfx, fun hx => absurd (Or.inr hx) hfx, d⟩
+      constructor
+      · intro hx; exact absurd hx hfx
+      · intro hx; cases hx
   cases pc with
   | start =>
     have hno : c.sh.lock ≠ some i := fun h => by have := t1.mpr h; simp at this
@@ -598,7 +647,7 @@ theorem rInv_step (S R : Nat) (c : Cfg RShared RLocal) (i : Nat) (hc : RInv S R 
     · -- waits for the lock
       dsimp only
       rw [set_self_of_getElem? c.ths i _ hl]
-      exact ⟨hth, hown, hsent, ⟨g1, g2, g3, g4⟩⟩
+      exact ⟨hth, hfl, hown, hsent, ⟨g1, g2, g3, g4⟩⟩
     · rename_i hfree
       have hnone : c.sh.lock = none := by
         cases hlk : c.sh.lock with
@@ -608,19 +657,19 @@ theorem rInv_step (S R : Nat) (c : Cfg RShared RLocal) (i : Nat) (hc : RInv S R 
       · -- nothing to report
         rename_i hz
         dsimp only
-        refine ⟨?_, ?_, hsent, ⟨g1, g2, g3, g4⟩⟩
+        refine ⟨?_, flags _ rfl rfl, ?_, hsent, ⟨g1, g2, g3, g4⟩⟩
         · intro j x hj
           cases getElem?_set_cases _ _ _ _ _ hj with
           | inl h =>
             obtain ⟨rfl, rfl⟩ := h
             refine ⟨by simp [hnone], by simp, by simp, ?_⟩
-            intro _
+            intro _ _ _
             show c.sh.lastS = c.sh.sent ∧ c.sh.lastR = c.sh.recv
             constructor <;> omega
           | inr h => exact hth j x h.2
         · intro k hk; rw [hnone] at hk; cases hk
       · dsimp only
-        refine ⟨?_, ?_, hsent, ⟨g1, g2, g3, g4⟩⟩
+        refine ⟨?_, flags _ rfl rfl, ?_, hsent, ⟨g1, g2, g3, g4⟩⟩
         · intro j x hj
           cases getElem?_set_cases _ _ _ _ _ hj with
           | inl h =>
@@ -641,59 +690,81 @@ theorem rInv_step (S R : Nat) (c : Cfg RShared RLocal) (i : Nat) (hc : RInv S R 
   | get =>
     have ho : c.sh.lock = some i := t1.mp (Or.inl rfl)
     simp only [rProg, rStep]
-    refine ⟨?_, ?_, hsent, ⟨g1, g2, g3, g4⟩⟩
-    · intro j x hj
-      cases getElem?_set_cases _ _ _ _ _ hj with
-      | inl h =>
-        obtain ⟨rfl, rfl⟩ := h
-        exact ⟨by simp [ho], by intro _; exact t2 (Or.inl rfl), by simp, by simp⟩
-      | inr h => exact hth j x h.2
-    · intro k hk
-      obtain ⟨l0, hl0⟩ := hown k hk
-      by_cases hki : i = k
-      · subst hki; exact ⟨_, List.getElem?_set_self hi⟩
-      · exact ⟨l0, by rw [List.getElem?_set_ne hki]; exact hl0⟩
+    cases hfg : failG with
+    | true =>
+      simp only [if_true]
+      subst hfg
+      exact release ho (Or.inl rfl) (Or.inl rfl)
+    | false =>
+      simp only [Bool.false_eq_true, if_false]
+      subst hfg
+      refine ⟨?_, flags _ rfl rfl, ?_, hsent, ⟨g1, g2, g3, g4⟩⟩
+      · intro j x hj
+        cases getElem?_set_cases _ _ _ _ _ hj with
+        | inl h =>
+          obtain ⟨rfl, rfl⟩ := h
+          exact ⟨by simp [ho], by intro _; exact t2 (Or.inl rfl), by simp, by simp⟩
+        | inr h => exact hth j x h.2
+      · intro k hk
+        obtain ⟨l0, hl0⟩ := hown k hk
+        by_cases hki : i = k
+        · subst hki; exact ⟨_, List.getElem?_set_self hi⟩
+        · exact ⟨l0, by rw [List.getElem?_set_ne hki]; exact hl0⟩
   | upd =>
     have ho : c.sh.lock = some i := t1.mp (Or.inr rfl)
     obtain ⟨u1, u2, u3, u4⟩ := t2 (Or.inr rfl)
     obtain ⟨v1, v2⟩ := t3 rfl
     simp only [rProg, rStep]
-    refine ⟨?_, ?_, hsent, ⟨?_, ?_, ?_, ?_⟩⟩
-    · intro j x hj
-      cases getElem?_set_cases _ _ _ _ _ hj with
-      | inl h =>
-        obtain ⟨rfl, rfl⟩ := h
-        refine ⟨by simp, by simp, by simp, ?_⟩
-        intro _; exact ⟨u1, u2⟩
-      | inr h =>
-        obtain ⟨a, b, c', d⟩ := hth j x h.2
-        rw [ho] at a
-        have hf : ¬ (x.pc = RPc.get ∨ x.pc = RPc.upd) :=
-          fun hx => h.1 (Option.some.inj (a.mp hx))
-        refine ⟨?_, fun hx => absurd hx hf, fun hx => absurd (Or.inr hx) hf, fun _ => ⟨u1, u2⟩⟩
-        constructor
-        · intro hx; exact absurd hx hf
-        · intro hx; cases hx
-    · intro k hk; cases hk
-    · show mS + dS = curS; omega
-    · show mR + dR = curR; omega
-    · show curS ≤ c.sh.sent; omega
-    · show curR ≤ c.sh.recv; omega
+    cases hfu : failU with
+    | true =>
+      simp only [if_true]
+      subst hfu
+      exact release ho (Or.inr rfl) (Or.inr rfl)
+    | false =>
+      simp only [Bool.false_eq_true, if_false]
+      subst hfu
+      refine ⟨?_, flags _ rfl rfl, ?_, hsent, ⟨?_, ?_, ?_, ?_⟩⟩
+      · intro j x hj
+        cases getElem?_set_cases _ _ _ _ _ hj with
+        | inl h =>
+          obtain ⟨rfl, rfl⟩ := h
+          refine ⟨by simp, by simp, by simp, ?_⟩
+          intro _ _ _; exact ⟨u1, u2⟩
+        | inr h =>
+          obtain ⟨a, b, c', d⟩ := hth j x h.2
+          rw [ho] at a
+          have hf : ¬ (x.pc = RPc.get ∨ x.pc = RPc.upd) :=
+            fun hx => h.1 (Option.some.inj (a.mp hx))
+          refine ⟨?_, fun hx => absurd hx hf, fun hx => absurd (Or.inr hx) hf, fun _ _ _ => ⟨u1, u2⟩⟩
+          constructor
+          · intro hx; exact absurd hx hf
+          · intro hx; cases hx
+      · intro k hk; cases hk
+      · show mS + dS = curS; omega
+      · show mR + dR = curR; omega
+      · show curS ≤ c.sh.sent; omega
+      · show curR ≤ c.sh.recv; omega
   | done =>
     simp only [rProg, rStep]
     rw [set_self_of_getElem? c.ths i _ hl]
-    exact ⟨hth, hown, hsent, ⟨g1, g2, g3, g4⟩⟩
+    exact ⟨hth, hfl, hown, hsent, ⟨g1, g2, g3, g4⟩⟩
 
 theorem r_dec (c : Cfg RShared RLocal) (i : Nat) :
     stepAt (rProg .repaired) c i = c ∨ rMu (stepAt (rProg .repaired) c i) < rMu c := by
   cases hl : c.ths[i]? with
   | none => left; exact stepAt_none _ _ _ hl
   | some l =>
-    obtain ⟨pc, curS, curR, dS, dR, mS, mR⟩ := l
+    obtain ⟨pc, curS, curR, dS, dR, mS, mR, failG, failU⟩ := l
     cases pc with
     | done => left; exact stepAt_eq_of_same _ c i _ hl rfl
-    | get => right; exact mu_lt_of_weight _ rWeight c i _ hl (by simp [rProg, rStep, rWeight])
-    | upd => right; exact mu_lt_of_weight _ rWeight c i _ hl (by simp [rProg, rStep, rWeight])
+    | get =>
+      right
+      apply mu_lt_of_weight _ rWeight c i _ hl
+      simp only [rProg, rStep]; split <;> simp [rWeight]
+    | upd =>
+      right
+      apply mu_lt_of_weight _ rWeight c i _ hl
+      simp only [rProg, rStep]; split <;> simp [rWeight]
     | start =>
       by_cases hb : c.sh.lock.isSome
       · left; exact stepAt_eq_of_same _ c i _ hl (by simp [rProg, rStep, hb])
@@ -704,39 +775,48 @@ theorem r_dec (c : Cfg RShared RLocal) (i : Nat) :
         · rename_i h; exact absurd h.2 hb
         · split <;> simp [rWeight]
 
-/-- **One round of the repaired report, every schedule**: the totals in the store equal the
-last-reported counters, those never exceed the byte counters, and equal them once any
-reporter ran; the lock is free again. -/
+theorem rMu_start (sh : RShared) (r : Round) : rMu (rStart sh r) ≤ 3 * r.n := by
+  simp only [rMu, rStart, List.map_map]
+  have : ∀ (l : List Nat), (l.map (rWeight ∘ rThread r)).sum = 3 * l.length := by
+    intro l
+    induction l with
+    | nil => rfl
+    | cons a t ih => simp only [List.map_cons, List.sum_cons, List.length_cons, ih, Function.comp, rThread, rNew, rWeight]; omega
+  rw [this]; simp
+
+/-- **One round of the repaired report, every schedule, any storage faults**: the totals in the
+store equal the last-reported counters, those never exceed the byte counters, and equal them once
+a reporter ran whose storage calls succeeded; the lock is free again. -/
 theorem r_round (sh : RShared) (r : Round) (hg : RGlobal sh) (hl : sh.lock = none) :
     RGlobal (rRound .repaired sh r) ∧ (rRound .repaired sh r).lock = none ∧
     (rRound .repaired sh r).sent = sh.sent + r.addS ∧ (rRound .repaired sh r).recv = sh.recv + r.addR ∧
-    (1 ≤ r.n → (rRound .repaired sh r).lastS = sh.sent + r.addS ∧ (rRound .repaired sh r).lastR = sh.recv + r.addR) := by
+    ((List.range r.n).any r.clean = true →
+      (rRound .repaired sh r).lastS = sh.sent + r.addS ∧ (rRound .repaired sh r).lastR = sh.recv + r.addR) := by
   let c := run (rProg .repaired) (r.sched ++ rounds r.n (3 * r.n)) (rStart sh r)
   have hc0 := rInv_start sh r hg hl
-  have hstep := rInv_step (sh.sent + r.addS) (sh.recv + r.addR)
-  have hinv : RInv (sh.sent + r.addS) (sh.recv + r.addR) c := inv_run _ _ hstep _ _ hc0
+  have hstep := rInv_step (sh.sent + r.addS) (sh.recv + r.addR) r.failGet r.failUpd
+  have hinv : RInv (sh.sent + r.addS) (sh.recv + r.addR) r.failGet r.failUpd c := inv_run _ _ hstep _ _ hc0
   have hq : Quiescent (rProg .repaired) c := by
     show Quiescent _ (run _ (r.sched ++ rounds r.n (3 * r.n)) _)
     rw [run_append]
     apply rounds_quiescent _ (fun _ => True) rMu r.n (fun _ _ _ => trivial) (fun c i _ => r_dec c i)
     · trivial
     · rw [run_length]; simp [rStart]
-    · refine Nat.le_trans (mu_run_le _ (fun _ => True) rMu (fun _ _ _ => trivial) (fun c i _ => r_dec c i) _ _ trivial) ?_
-      simp [rMu, rStart, rNew, rWeight, Nat.mul_comm]
+    · exact Nat.le_trans (mu_run_le _ (fun _ => True) rMu (fun _ _ _ => trivial) (fun c i _ => r_dec c i) _ _ trivial)
+        (rMu_start sh r)
   have hlen : c.ths.length = r.n := by
     show (run _ _ _).ths.length = r.n
     rw [run_length]; simp [rStart]
+  have hmove : ∀ (j : Nat) (x : RLocal), c.ths[j]? = some x → (x.pc = RPc.get ∨ x.pc = RPc.upd) → False := by
+    intro j x hx hp
+    refine absurd (hq j) (stepAt_ne_of_local _ _ j _ hx ?_)
+    obtain ⟨pc, curS, curR, dS, dR, mS, mR, fG, fU⟩ := x
+    cases hp with
+    | inl h => simp only at h; subst h; simp only [rProg, rStep]; split <;> simp
+    | inr h => simp only at h; subst h; simp only [rProg, rStep]; split <;> simp
   have hdone : ∀ (i : Nat) (l : RLocal), c.ths[i]? = some l → l.pc = RPc.done := by
     intro i l hli
-    obtain ⟨a, _, _, _⟩ := hinv.th i l hli
-    have hmove : ∀ (j : Nat) (x : RLocal), c.ths[j]? = some x → (x.pc = RPc.get ∨ x.pc = RPc.upd) → False := by
-      intro j x hx hp
-      refine absurd (hq j) (stepAt_ne_of_local _ _ j _ hx ?_)
-      obtain ⟨pc, curS, curR, dS, dR, mS, mR⟩ := x
-      cases hp with
-      | inl h => simp only at h; subst h; simp [rProg, rStep]
-      | inr h => simp only at h; subst h; simp [rProg, rStep]
-    obtain ⟨pc, curS, curR, dS, dR, mS, mR⟩ := l
+    obtain ⟨pc, curS, curR, dS, dR, mS, mR, fG, fU⟩ := l
     cases pc with
     | done => rfl
     | get => exact (hmove i _ hli (Or.inl rfl)).elim
@@ -761,9 +841,13 @@ theorem r_round (sh : RShared) (r : Round) (hg : RGlobal sh) (hl : sh.lock = non
       have h2 := (hinv.th k x hx).1.mpr hlk
       rw [this] at h2; simp at h2
   refine ⟨hinv.gl, hlock, hinv.sent.1, hinv.sent.2, ?_⟩
-  intro hn
-  have h0 : c.ths[0]? = some (c.ths[0]'(by omega)) := List.getElem?_eq_getElem (by omega)
-  have := (hinv.th 0 _ h0).2.2.2 (hdone 0 _ h0)
+  intro hany
+  obtain ⟨k, hk, hclean⟩ := List.any_eq_true.mp hany
+  have hkn : k < r.n := List.mem_range.mp hk
+  have h0 : c.ths[k]? = some (c.ths[k]'(by omega)) := List.getElem?_eq_getElem (by omega)
+  obtain ⟨f1, f2⟩ := hinv.fl k _ h0
+  simp only [Round.clean, Bool.and_eq_true, Bool.not_eq_true'] at hclean
+  have := (hinv.th k _ h0).2.2.2 (hdone k _ h0) (by rw [f1]; exact hclean.1) (by rw [f2]; exact hclean.2)
   rw [hinv.sent.1, hinv.sent.2] at this
   exact this
 
@@ -783,13 +867,12 @@ theorem r_rounds (rs : List Round) : ∀ (sh : RShared), RGlobal sh → sh.lock 
     refine ⟨⟨⟨⟨⟨g1, g2⟩, ?_⟩, ?_⟩, ?_⟩, ?_⟩
     · rw [← s1]; exact g3
     · rw [← s2]; exact g4
-    · cases hz : r.n with
-      | zero => left; rfl
-      | succ k => right; exact hn (by omega)
+    · cases hz : (List.range r.n).any r.clean with
+      | false => left; rfl
+      | true => right; exact hn hz
     · have := ih _ ⟨g1, g2, g3, g4⟩ l
       rw [s1, s2] at this
       exact this
-
 
 /-! ## Dispose.Close: the latch under `currentLock` -/
 
